@@ -6,6 +6,7 @@ package main
 import (
 	"fmt"
 	"go/token"
+	"go/types"
 	"strings"
 
 	"golang.org/x/tools/go/ssa"
@@ -157,6 +158,63 @@ func (c *Ctx) rulePrunePred() {
 
 // ruleGateBeforeDedup: a use is recorded as "already reported" only after the ignore gate let it pass
 // (otherwise a suppressed first use hides every later use: C07 "moves to the next unsuppressed use").
+// isSelectorIdentSet: m is a map[*ast.Ident]bool field of a module struct (or a local map) every update of which is
+// `m[sel.Sel] = true` for sel the *ast.SelectorExpr being visited by a walk callback, made unconditionally in the
+// selector case: "this identifier is the Sel of a selector and is handled with it".
+func (c *Ctx) isSelectorIdentSet(m ssa.Value) bool {
+	P := c.P
+	mt, ok := m.Type().Underlying().(*types.Map)
+	if !ok || typeStr(mt.Key()) != "*go/ast.Ident" {
+		return false
+	}
+	md := P.DescDeep(m)
+	n, okAll := 0, true
+	for _, fn := range P.ModFuncs {
+		allInstrs(fn, func(b *ssa.BasicBlock, ins ssa.Instruction) {
+			mu, isMU := ins.(*ssa.MapUpdate)
+			if !isMU || !types.Identical(mu.Map.Type(), m.Type()) || P.DescDeep(mu.Map) != md {
+				return
+			}
+			n++
+			if cv, isC := constBool(mu.Value); !isC || !cv {
+				okAll = false
+				return
+			}
+			okKey := P.RootsAllDeep(mu.Key, func(r ssa.Value) bool {
+				sel := fieldLoad(r, "go/ast.SelectorExpr", "Sel")
+				if sel == nil {
+					return false
+				}
+				// sel = <node being visited>.(*ast.SelectorExpr)
+				return P.RootsAllDeep(sel, func(q ssa.Value) bool {
+					var ta *ssa.TypeAssert
+					switch x := q.(type) {
+					case *ssa.Extract:
+						ta, _ = x.Tuple.(*ssa.TypeAssert)
+					case *ssa.TypeAssert:
+						ta = x
+					}
+					return ta != nil && c.roleOf(firstRoot(P, ta.X), 0) == "node"
+				})
+			})
+			if !okKey {
+				okAll = false
+				return
+			}
+			for _, l := range P.BlockGuards(b) {
+				if l.Kind == "rangeloop" || l.Kind == "rangefunc" || nilCheck(l) {
+					continue
+				}
+				if x, t, _ := typeAssertOK(l); x != nil && strings.HasPrefix(typeStr(t), "*go/ast.") {
+					continue
+				}
+				okAll = false
+			}
+		})
+	}
+	return n > 0 && okAll
+}
+
 func (c *Ctx) ruleGateBeforeDedup(pkgs ...string) {
 	P := c.P
 	n := 0
@@ -166,6 +224,11 @@ func (c *Ctx) ruleGateBeforeDedup(pkgs ...string) {
 				allInstrs(fn, func(b *ssa.BasicBlock, ins ssa.Instruction) {
 					mu, ok := ins.(*ssa.MapUpdate)
 					if !ok {
+						return
+					}
+					if c.isSelectorIdentSet(mu.Map) {
+						// not a once-per-file map: the set of identifiers that are the Sel of a visited selector
+						c.ok("QUALIFIED-SET", FuncName(fn), P.Pos(mu.Pos()), "marks the Sel identifier of the selector expression being visited (handled by the selector case)")
 						return
 					}
 					n++
